@@ -10,6 +10,7 @@ THEOREMS = [
     'Sbepp.Properties.C02.message_size',
     'Sbepp.Properties.C02.encode_then_decode',
     'Sbepp.Properties.C02.encode_then_decode_accepted',
+    'Sbepp.Properties.C02.message_round_trip',
 ]
 EXT = False
 WALK_MODULE = 'Sbepp.Properties.C02Walk'
